@@ -212,7 +212,7 @@ func kindsOf(evs []StatEv) string {
 
 // c20Stats: 1..3 recording stats handlers per side over all kinds and outcomes.
 func c20Stats(r *Run) {
-	outcomes := []string{"ok", "handler-error", "cancel", "deadline", "transport-failure", "failed-open", "precancel"}
+	outcomes := []string{"ok", "handler-error", "cancel", "deadline", "transport-failure", "failed-open", "precancel", "ok-coded-error"}
 	kinds := []string{"unary", mBidi, mSrvStream, mCliStream}
 	for nh := 1; nh <= 3; nh++ {
 		for _, oc := range outcomes {
@@ -228,6 +228,12 @@ func c20Stats(r *Run) {
 		}
 	}
 }
+
+// c20OKCoded is a non-nil error whose gRPC status carries the code OK.
+type c20OKCoded struct{}
+
+func (c20OKCoded) Error() string              { return "failed, but the status table says OK" }
+func (c20OKCoded) GRPCStatus() *status.Status { return status.New(codes.OK, "") }
 
 func c20StatsOne(r *Run, nh int, oc, kind string) {
 	var crecs, srecs []*Recorder
@@ -247,6 +253,8 @@ func c20StatsOne(r *Run, nh int, oc, kind string) {
 		switch oc {
 		case "handler-error":
 			return nil, status.Error(codes.Aborted, "x")
+		case "ok-coded-error":
+			return nil, c20OKCoded{}
 		case "cancel", "deadline", "transport-failure":
 			select {
 			case <-ctx.Done():
@@ -262,6 +270,11 @@ func c20StatsOne(r *Run, nh int, oc, kind string) {
 		case "handler-error":
 			recvB(ss)
 			return status.Error(codes.Aborted, "x")
+		case "ok-coded-error":
+			// a failure whose GRPCStatus says OK (an error-translating interceptor's table gap): the handler
+			// did fail, and the caller is told so
+			recvB(ss)
+			return c20OKCoded{}
 		case "cancel", "deadline", "transport-failure":
 			select {
 			case <-ss.Context().Done():
@@ -440,7 +453,7 @@ func c20StatsOne(r *Run, nh int, oc, kind string) {
 	}
 	check("client", crecs, &success)
 	var srvSuccess *bool
-	if oc == "ok" || oc == "handler-error" {
+	if oc == "ok" || oc == "handler-error" || oc == "ok-coded-error" {
 		srvSuccess = &success
 	}
 	if oc != "failed-open" {
